@@ -443,6 +443,20 @@ def concat(ctx):
         for _ in range(1500 if ctx.quick else 30000):
             k = rng.randrange(3, 6)
             out.append(rng.choice([" ", "  ", "\t", ""]).join(rng.choice(pool) for _ in range(k)))
+    # escape sequences at the seam of two literals: each literal is decoded on its own, so an escape that ends one
+    # literal must not continue into the next (octal digits, hex digits, an escaped backslash before a letter, ...)
+    tails = ["\\0", "\\1", "\\12", "\\7", "\\37", "\\\\", "\\x4", "\\x41", "\\u00e", "\\u00e9", "a", "\\"]
+    heads = ["0", "1", "7", "23", "8", "9", "a", "f", "n", "x41", "u00e9", "N{BULLET}", "{", "\\0", "", "'"]
+    for pre in ("", "b", "u", "r", "rb"):
+        for qa in ("'", '"', "'''"):
+            for qb in ("'", '"'):
+                for t in tails:
+                    for h in heads:
+                        if h == "'" and qb == "'":
+                            continue
+                        for sep in (" ", ""):
+                            out.append(f"{pre}{qa}x{t}{qa}{sep}{pre}{qb}{h}y{qb}")
+                        out.append(f"{pre}{qa}{t}{qa} {pre}{qb}{h}{qb} {pre}{qa}{h}{qa}")
     return out
 
 
@@ -552,8 +566,10 @@ def huge_ints(ctx):
         out += [hex(2 ** k), hex(2 ** k - 1), oct(2 ** k + 1), bin(2 ** k - 1), hex(2 ** k).upper().replace("0X", "0X")]
     for b in (31, 32, 33, 63, 64, 65, 127, 128, 129):
         out += [str(2 ** b - 1), str(2 ** b), str(2 ** b + 1), hex(2 ** b - 1), oct(2 ** b), bin(2 ** b + 1)]
+    import lexcommon
+    out += lexcommon.radix_boundaries()       # every base around the u32/i64/u64/u128 digit counts
     for _ in range(3000 if ctx.quick else 50000):
-        v = rng.getrandbits(rng.choice([8, 31, 64, 65, 200, 1000]))
+        v = rng.getrandbits(rng.choice([8, 31, 64, 65, 66, 200, 1000]))
         s = rng.choice([str(v), hex(v), oct(v), bin(v), hex(v).upper().replace("0X", "0x"), "0X" + hex(v)[2:], "0O" + oct(v)[2:],
                         "0B" + bin(v)[2:]])
         # sprinkle underscores between digits (and after the base prefix)
